@@ -86,7 +86,7 @@ CU(k, u)          == Call("unset_cookie", NoName, "", <<>>, FALSE, NoT, NoLink, 
 AllBases == Bases \cup {TypedHeader[p] : p \in TypedProps} \cup {"link", "x-a", "x-b"}
 MapView(m) == [b \in AllBases |-> Look(m, b)]
 EmitView(m) == [b \in AllBases \cup {"content-type", "content-length"} |-> Look(WithFramework(m, DefaultMedia), b)]
-JarView(j) == {[name |-> k, c |-> j[k]] : k \in DOMAIN j}
+JarView(j) == {[name |-> k, c |-> j[k], w |-> written[k]] : k \in DOMAIN j}      \* c: held (model of the code), w: asked
 
 (* ---- exhaustive instance -------------------------------------------------------------------- *)
 Tick == Len(h) < Depth /\ h' = Append(h, 0)
